@@ -11,6 +11,8 @@ Python re-implementation of the equations.
 """
 from __future__ import annotations
 
+import itertools
+
 import copy
 from fractions import Fraction
 
@@ -238,7 +240,26 @@ def _request(case, observed):
     return req
 
 
+def _spinn_points(case):
+    from harness import c11
+
+    return c11._grid_points(case["spinn"]["X"])
+
+
+def _at_point(case, pt):
+    c = dict(case)
+    if case["spinn"]["time"]:
+        c["t"], c["x"] = _q(pt[0]), [_q(v) for v in pt[1:]]
+    else:
+        c["t"], c["x"] = None, [_q(v) for v in pt]
+    return c
+
+
 def lean_request(case, obs):
+    if case.get("spinn") and "grid" in obs:
+        return [_request(_at_point(case, pt), vals) for pt, vals in zip(_spinn_points(case), obs["grid"])]
+    if case.get("spinn"):
+        case = _at_point(case, _spinn_points(case)[0])
     req = _request(case, obs.get("value"))
     if "error" in obs:
         req["rejected"] = True  # a rejection is an observation: Holds decides whether the layout was valid
@@ -267,6 +288,8 @@ def run_impl(case):
     from jinns.parameters import Params, ParamsDict
 
     kind = case["kind"]
+    if case.get("spinn"):
+        return _run_spinn(case)
     nv = _nvars(case)
     Tmax = float(Fraction(case["Tmax"]))
     eq_type = {"glv": "ODE", "mass": "statio_PDE", "ns": "statio_PDE"}.get(kind, "nonstatio_PDE")
@@ -310,6 +333,52 @@ def run_impl(case):
     return {"value": [core.qstr(v) for v in res.reshape(-1)], "shape": list(res.shape)}
 
 
+def _run_spinn(case):
+    import jax
+    import jax.numpy as jnp
+    import numpy as np
+    from harness import core, c11
+    from jinns.loss import (BurgerEquation, FisherKPP, OU_FPENonStatioLoss2D, MassConservation2DStatio,
+                            NavierStokes2DStatio)
+    from jinns.parameters import Params, ParamsDict
+
+    kind, sp = case["kind"], case["spinn"]
+    Tmax = float(Fraction(case["Tmax"]))
+    D, R, deg, time = sp["D"], sp["R"], sp["deg"], sp["time"]
+    eqp = {}
+    for k, v in case["eq_params"]:
+        eqp[k] = {kk: _arr(vv) for kk, vv in v["sub"]} if isinstance(v, dict) else _arr(v)
+    X = jnp.asarray([[float(Fraction(v)) for v in row] for row in sp["X"]], dtype=jnp.float64)
+    nets, nnp = {}, {}
+    for name, ps in case["nets"]:
+        net, tmpl, _, _ = c11._nets(time, D, R, len(ps), deg)
+        nets[name] = net
+        nnp[name] = c11._set(tmpl, jnp.asarray(sp["coef"][name], dtype=jnp.float64))
+    try:
+        if time:
+            name = case["nets"][0][0]
+            params = Params(nn_params=nnp[name], eq_params=eqp)
+            loss = {"burgers": BurgerEquation, "fisher": FisherKPP, "ou": OU_FPENonStatioLoss2D}[kind](Tmax=Tmax)
+            res = loss.evaluate(X[:, 0:1], X[:, 1:], nets[name], params)
+        else:
+            params = ParamsDict(nn_params=nnp, eq_params=eqp)
+            if kind == "mass":
+                loss = MassConservation2DStatio(nn_key=case["keys"]["nn_key"], Tmax=Tmax)
+            else:
+                loss = NavierStokes2DStatio(u_key=case["keys"]["u_key"], p_key=case["keys"]["p_key"], Tmax=Tmax)
+            res = loss.evaluate(X, nets, params)
+    except Exception as e:  # a rejection is an observation
+        return {"error": core.err_kind(e), "message": str(e)[:200]}
+    res = np.asarray(res)
+    if not np.all(np.isfinite(res)):
+        return {"nonfinite": True, "shape": list(res.shape)}
+    B = X.shape[0]
+    if res.shape[:D] != (B,) * D:
+        return {"error": "grid_shape", "message": f"residual grid of shape {res.shape} for a batch of {B} points in {D} axes"}
+    return {"grid": [[core.qstr(v) for v in np.asarray(r).reshape(-1)] for r in res.reshape(B ** D, -1)],
+            "shape": list(res.shape)}
+
+
 def _user_fpe(case, Tmax):
     """a user subclass of the real `FPENonStatioLoss2D` (its `equation` is inherited) whose drift vector and
     diffusion matrix are polynomial fields of (t, x): exercises the off-diagonal second-order terms, which
@@ -335,6 +404,17 @@ def _user_fpe(case, Tmax):
 # judging
 # --------------------------------------------------------------------------------------------
 def judge(case, obs, a):
+    if isinstance(a, list):  # separable network: one answer per grid index
+        if len(a) != len(obs["grid"]):
+            return {"status": "violation", "clause": f"{case['kind']}:spinn-grid-size", "n": len(obs["grid"])}
+        worst = {"status": "ok", "clause": None}
+        for idx, (ans, vals, pt) in enumerate(zip(a, obs["grid"], _spinn_points(case))):
+            v = judge({**_at_point(case, pt), "spinn": None}, {"value": vals}, ans)
+            if v["status"] == "violation":
+                return {**v, "clause": (v["clause"] or "") + "@spinn-grid", "grid_index": idx, "point": [_q(x) for x in pt]}
+            if v["status"] == "disagree" and worst["status"] == "ok":
+                worst = {**v, "grid_index": idx}
+        return worst
     merr = a.get("model_error")
     if "error" in obs:
         if not a["holds"]:  # Holds.C02: the documented expression is defined here, the layout is valid
@@ -363,7 +443,7 @@ def judge(case, obs, a):
 
 
 def nontrivial(case, obs):
-    if "value" not in obs:
+    if "value" not in obs and "grid" not in obs:
         return False
     for _, ps in case["nets"]:
         for p in ps:
@@ -378,8 +458,12 @@ def tags(case, obs):
         out.append(f"{case['kind']}:layout={case['layout']}")
     if case.get("jit"):
         out.append("jit")
+    if case.get("spinn"):
+        out.append(f"spinn:B={len(case['spinn']['X'])},D={case['spinn']['D']}")
     if "error" in obs:
         out.append("rejected:" + obs["error"])
+    elif "grid" in obs:
+        pass
     elif obs.get("nonfinite"):
         out.append("guard:nonfinite")
     else:
@@ -390,7 +474,7 @@ def tags(case, obs):
         elif case["kind"] == "glv":
             out.append("glv:u_main_power_of_two")
     if case["kind"] == "fisher":
-        out.append(f"fisher:d={len(case['x'])}")
+        out.append(f"fisher:d={len(case['x']) if case.get('x') is not None else case['spinn']['D'] - 1}")
     if case["kind"] == "glv":
         out.append(f"glv:others={len(case['keys']['others'])}")
     return out
@@ -593,6 +677,38 @@ def _gen_ns(rng, layout=None):
 
 GEN = {"burgers": _gen_burgers, "fisher": _gen_fisher, "ou": _gen_ou, "fpe": _gen_fpe, "glv": _gen_glv,
        "mass": _gen_mass, "ns": _gen_ns}
+
+# ---- separable networks (SPINN): the same built-ins evaluated on the tensor grid of a batch ------------------
+SPINN_KINDS = ["burgers", "fisher", "ou", "mass", "ns"]
+
+
+def _gen_spinn(rng, kind=None, B=None):
+    """a built-in evaluated with real `SPINN`s whose one-dimensional sub-networks are integer polynomials; the
+    residual grid is compared, grid index by grid index, with the documented expression of the pointwise twin
+    polynomial sum_r prod_k f_k,r(z_k) at the grid point (batches smaller AND larger than the dimension)"""
+    from harness import c11
+
+    kind = kind or rng.choice(SPINN_KINDS)
+    c = GEN[kind](rng) if kind != "fisher" else _gen_fisher(rng, d=rng.choice([1, 2, 2]))
+    c["flavour"] = "spinn"
+    c.pop("free", None)
+    time = kind in ("burgers", "fisher", "ou")
+    D = (1 + len(c["x"])) if time else 2
+    B = B or rng.choice([1, 1, 2, 3])
+    R, deg = rng.choice([1, 2]), rng.choice([1, 2])
+    exps = list(itertools.product(range(deg + 1), repeat=D))
+    coefs, nets = {}, []
+    for name, ps in c["nets"]:
+        M = len(ps)
+        coef = c11._coef(rng, D, R * M, deg)
+        coefs[name] = coef
+        tw = c11._twin_coef(coef, R, M, exps)
+        nets.append([name, [[[_q(Fraction(v)), list(e)] for v, e in zip(row, exps) if v != 0] for row in tw]])
+    c["nets"] = nets
+    c["spinn"] = {"R": R, "deg": deg, "D": D, "time": time, "coef": coefs, "X": c11._batch(rng, B, D)}
+    c["t"], c["x"] = None, None
+    return c
+
 
 
 # ---- free parameters: reading / writing one of them in a case ---------------------------------
@@ -828,6 +944,11 @@ def gen_cases(rng, tier):
     reps = 2 if tier == "quick" else 12
     for _ in range(reps):
         cases += _solutions(rng)
+    # separable networks: every built-in with a SPINN branch, one point per axis (batch < dimension) and more
+    for _ in range(1 if tier == "quick" else 8):
+        for kind in SPINN_KINDS:
+            for B in (1, rng.choice([2, 3])):
+                cases.append(_gen_spinn(rng, kind, B))
     if tier == "thorough":
         for c in cases[::15]:
             c["jit"] = True
@@ -836,6 +957,13 @@ def gen_cases(rng, tier):
 
 def shrink_candidates(case):
     # drop one monomial of one network; integer point; Tmax = 1
+    if case.get("spinn"):
+        sp = case["spinn"]
+        if len(sp["X"]) > 1:  # a smaller batch (the twin polynomials do not depend on the batch)
+            c = copy.deepcopy(case)
+            c["spinn"]["X"] = sp["X"][:-1]
+            yield c
+        return
     for ni, (name, ps) in enumerate(case["nets"]):
         for pi, p in enumerate(ps):
             if len(p) > 1:
